@@ -139,7 +139,7 @@ def r90(F):
                    "empty prefix -> default_ns(uri), otherwise ns(prefix, uri); \"1.0\" -> Version10, \"1.1\" -> Version11; "
                    "encoding / standalone reach StartDocument unchanged; children and attributes iterate forward", floor=5)
     wn = F.fn(X + "write_node")
-    ie = [(b, t) for b, t in wn.calls() if callee(t).endswith("str::is_empty")]
+    ie = [(b, t) for b, t in wn.calls() if (callee(t).endswith("::is_empty") and "str" in callee(t))]
     dn = [b for b, t in wn.calls() if callee(t).endswith("StartElementBuilder::default_ns")]
     ns = [b for b, t in wn.calls() if callee(t).endswith("StartElementBuilder::ns")]
     need(dn and ns, "default_ns / ns calls not found")
